@@ -1,10 +1,15 @@
 import LymuiVerif.Gen.Dispatch
+import LymuiVerif.Core.StdModelCheck
 /-! Driver: one request per line (`name tok tok ...`), one reply per line. -/
 open Gen
 
 def step (line : String) : String :=
   match (line.trimAscii.toString.splitOn " ").filter (· ≠ "") with
   | [] => "bad-op"
+  | ["@S", seed, n] =>
+    match seed.toNat?, n.toNat? with
+    | some sd, some k => StdModel.run sd k
+    | _, _ => "bad-op"
   | "@Q" :: name :: toks =>
     match dispatchQ name toks with
     | some (out, []) => " ".intercalate out
